@@ -19,10 +19,10 @@ RULE = ('one case = (objective form, ordered tuple of 1-3 constraint forms); the
         'form\'s fixed list are used) and, per problem, over format in {dense, sparse} x solver in {default, glpk}; '
         '13 objective forms (affine with constant, affine in x only, max of two affine, max(affine, affine, constant), '
         'abs, sum(abs(vector)), sum(max(vector, 0)), max over components, affine + max, 2*abs + affine, z + max, '
-        'max(abs, sum(abs)), the nested sum(max(0, abs-1, 2*abs-3)) of modeling.rst) and 21 constraint forms (scalar '
+        'max(abs, sum(abs)), the nested sum(max(0, abs-1, 2*abs-3)) of modeling.rst) and 22 constraint forms (scalar '
         '<=, vector >= scalar, dense/sparse matrix coefficient, scalar/vector/matrix ==, abs <= c scalar, vector and '
         'with matrix coefficient, max(affine, affine) <= c, sum(abs(y)) <= c, abs + max <= c, max over components, '
-        'componentwise max <= vector, constants-only 0*x + 1 <= c, number >= x, constraints on z, nested sum(max)); '
+        'componentwise max <= vector, constants-only 0*x + 1 <= c, number >= x, constraints on z, nested sum(max), scalar function <= vector); '
         'non-trivial = a solve that returned a status which was compared with the exact LP')
 ASSUME = ['mc/ref/lpexact.py (exact two-phase simplex) and mc/ref/pwl.py (epigraph construction) are trusted; they are '
           'independent of cvxopt (plain Python, Fractions)',
@@ -35,6 +35,13 @@ ASSUME = ['mc/ref/lpexact.py (exact two-phase simplex) and mc/ref/pwl.py (epigra
           'improving ray (-> dual infeasible); otherwise any documented status is accepted, but a claim must be true '
           '(optimal only if the exact LP has an optimum and everything below holds, primal infeasible only if it is '
           'infeasible, dual infeasible only if it has an improving ray); "unknown" is then accepted as well',
+          'status "unknown" of the default solver on a well-posed problem is accepted under C05\'s escape clause when G has '
+          'full column rank and the iterate left in the variables is feasible and optimal to 1e-5 (interior-point end game, '
+          '"singular KKT matrix" one step before the tolerances are met); it is reported when the iterate is not '
+          'near-optimal (so far only when Rank(G) < n = Rank([G;A]): known finding about kkt_chol2); GLPK must always give '
+          'the demanded status',
+          'modeling.rst says that after status "unknown" all values are None; this is checked (known finding: the default '
+          'solver leaves its last iterates)',
           'rank-deficient problems (Rank(A) < p or Rank([G;A]) < n for the exact LP; e.g. a variable component that occurs '
           'nowhere with a nonzero coefficient): outcome incl. ValueError/ArithmeticError unspecified, claims still checked',
           'equality multipliers: for f1 == f2 modeling.rst defines the constraint function f1 - f2 and calls c.multiplier '
@@ -51,12 +58,12 @@ ASSUME = ['mc/ref/lpexact.py (exact two-phase simplex) and mc/ref/pwl.py (epigra
           'than 1e-4 (otherwise nothing depends on it); multipliers are not compared between configurations (dual '
           'uniqueness is not decided), each is checked through the dual function instead',
           'a variable occurrence multiplied by the number 0 (0*x + 1 <= c) does not make x a variable of the problem']
-BOUNDS = {'quick': '13 objective forms x (21 single constraint forms + 63 ordered pairs (second = first + 1, 4, 9 mod 21)) '
-                   'and 4 objective forms x 21 ordered triples (i, i+2, i+7 mod 21); 2 data variants per form; '
-                   '4 configurations per problem (~8.6e3 problems)',
-          'thorough': '13 objective forms x (21 singles + all 441 ordered pairs) with 3 data variants per form (pairs: '
-                      '2 variants of the objective), 13 objective forms x 42 ordered triples ((i, i+2, i+7), (i, i+5, i+11) '
-                      'mod 21) with 2 variants per form; 4 configurations per problem (~1.7e5 problems)'}
+BOUNDS = {'quick': '13 objective forms x (22 single constraint forms + 66 ordered pairs (second = first + 1, 4, 9 mod 22)) '
+                   'and 4 objective forms x 22 ordered triples (i, i+2, i+7 mod 22); 2 data variants per form; '
+                   '4 configurations per problem (9.4e3 problems, 3.8e4 solves)',
+          'thorough': '13 objective forms x (22 singles + all 484 ordered pairs) with 3 data variants per form (pairs: '
+                      '2 variants of the objective), 13 objective forms x 44 ordered triples ((i, i+2, i+7), (i, i+5, i+11) '
+                      'mod 22) with 2 variants per form; 4 configurations per problem (1.25e5 problems, 5e5 solves)'}
 
 TOLF = 1e-6      # feasibility / optimal value
 TOLD = 1e-5      # dual function
@@ -156,6 +163,8 @@ CON = [
      lambda c0, c1: [['max', Y, X], '<=', CM(c0, c1)]),
     ('docphi', [(1,), (2,), (3,)],
      lambda c: [['sum', _phi(Y)], '<=', C(c)]),
+    ('bsum', [(1, 2, 1), (-1, 1, 3), (2, 3, 2)],
+     lambda a, c0, c1: [['+', ['sum', Y], ['*', a, X]], '<=', CM(c0, c1)]),
 ]
 OBJD = dict((n, (v, f)) for n, v, f in OBJ)
 COND = dict((n, (v, f)) for n, v, f in CON)
@@ -321,6 +330,9 @@ class Ref(object):
         self.status = r['status']
         self.value = None if r['value'] is None else r['value'] + L['d']
         self.x = r['x']
+        # rank(G) < n although rank([G; A]) = n: allowed by solvers.lp, but the default KKT solver (kkt_chol2) starts
+        # from a Cholesky factorization of G'G
+        self.g_rank_def = self.rank_ok and (lpexact.rank(L['G']) if L['G'] else 0) < self.n
         self._cls = None
         self._ray = None
         self._unique = None
@@ -439,6 +451,8 @@ def judge(R, ob, cfg, st):
             out('rank-deficient:' + et)
             return viol
         out('exception:' + et)
+        if shape == 'general' and et == 'ValueError' and R.g_rank_def and cfg[1] == 'default':
+            shape = 'G-column-rank-deficient'
         V('solve:exception:%s:%s' % (et, shape), 'solve() raised %s: %s (exact LP: %s, rank assumptions %s)'
           % (et, em, R.status, 'hold' if R.rank_ok else 'violated'))
         return viol
@@ -467,8 +481,14 @@ def judge(R, ob, cfg, st):
                 demanded = 'primal infeasible'
             elif R.status == 'unbounded' and c['strict_dinf_ray']:
                 demanded = 'dual infeasible'
+        if demanded == 'optimal' and status == 'unknown' and cfg[1] == 'default' and not R.g_rank_def and _near_optimal(R, ob):
+            # C05's escape clause: the interior-point method stopped ("singular KKT matrix") at an iterate that is
+            # optimal to 1e-5; 'unknown' is then a documented, truthful answer
+            out('well-posed:unknown-at-a-1e-5-optimal-iterate-accepted')
+            demanded = None
         if demanded is not None:
-            V('status:well-posed:expected-%s:got-%s' % (demanded.replace(' ', '-'), status.replace(' ', '-')),
+            V('status:well-posed:%sexpected-%s:got-%s' % ('G-column-rank-deficient:' if R.g_rank_def and cfg[1] == 'default' else '',
+                                                         demanded.replace(' ', '-'), status.replace(' ', '-')),
               'status %r; the exact LP is %s, satisfies the rank assumptions and is strictly feasible / strictly certified, '
               'so %r is the only correct status' % (status, R.status, demanded))
             return viol
@@ -600,6 +620,19 @@ def judge(R, ob, cfg, st):
             V('optimal:multipliers-not-dual-optimal', 'multipliers %r: Lagrange dual function (inf over |v - v*| <= %s) = %r, exact '
               'optimum %r: not a dual solution of the problem as written' % ([m['v'] for m in mult], float(radius), None if g is None else float(g), pf))
     return viol
+
+
+def _near_optimal(R, ob):
+    """the values left behind by an 'unknown' solve are feasible and optimal to 1e-5 for the problem as written."""
+    if any(not _shape_ok(ob['vals'][n], len(pwl.COLS[n])) for n in R.names):
+        return False
+    pt = _point(ob['vals'], R.names)
+    nrm = 1.0 + max(abs(float(t)) for t in pt)
+    for con, ty in zip(R.prob['cons'], R.ctype):
+        fv = [float(t) for t in pwl.ev(pwl.cfun(con), pt)]
+        if (max(fv) if ty == '<' else max(abs(t) for t in fv)) > 1e-5 * nrm:
+            return False
+    return _rel(float(pwl.ev(R.prob['obj'], pt)[0]), float(R.value)) <= 1e-5
 
 
 def _point(vals, occ):
